@@ -1900,7 +1900,7 @@ class ppc_rlwinm(ppc_rlwimi):
     mask_list = [bm_int010101, bm_rt, bm_ra, bm_sh, bm_mb, bm_me, bm_rc]
     namestr = ['RLWINM']
 
-class ppc_rlwnm(ppc_mn):
+class ppc_rlwnm(ppc_rlwimi, ppc_mn):
     mask_list = [bm_int010111, bm_rt, bm_ra, bm_rb, bm_mb, bm_me, bm_rc]
     namestr = ['RLWNM']
 
